@@ -179,7 +179,11 @@ def encode_contrasts(  # pylint: disable=dangerous-default-value  # always repla
     # Perform dummy encoding
     if output in ("narwhals", "pandas", "numpy"):
         categories = list(data.cat.categories)
-        encoded = pandas.get_dummies(data)
+        # Plain numpy booleans whatever the dtype of the data: for extension
+        # dtypes (`string[...]`, Arrow strings) pandas would otherwise hand back
+        # masked/Arrow booleans, which become object arrays (and an object
+        # model matrix for `output="numpy"`).
+        encoded = pandas.get_dummies(data, dtype=bool)
     elif output == "sparse":
         categories, encoded = categorical_encode_series_to_sparse_csc_matrix(
             data,
